@@ -34,7 +34,8 @@ import (
 type ucert struct {
 	name  string
 	what  string
-	z     *zx509.Certificate   // what the real graph is fed
+	z     *zx509.Certificate   // what the real graph is fed the FIRST time a history touches the certificate
+	z2    *zx509.Certificate   // a second, independently parsed object of the same DER: every later AddCert/AddRoot of that certificate and every IsRoot query
 	std   *stdx509.Certificate // what the model looks at
 	fp    string               // hex SHA-256 of the DER (certificate identity)
 	rawFp []byte
@@ -106,7 +107,11 @@ func buildUniverse(c *ev.Ctx, shape string) *universe {
 		if err != nil {
 			c.Broken("crypto/x509 cannot parse %s: %v", name, err)
 		}
-		uc := &ucert{name: name, what: what, z: z, std: s, fp: sha256hex(der),
+		z2, err := zx509.ParseCertificate(append([]byte(nil), der...))
+		if err != nil || z2 == z {
+			c.Broken("second parse of %s: %v", name, err)
+		}
+		uc := &ucert{name: name, what: what, z: z, z2: z2, std: s, fp: sha256hex(der),
 			subj: string(s.RawSubject), iss: string(s.RawIssuer), spki: string(s.RawSubjectPublicKeyInfo)}
 		uc.rawFp, _ = hex.DecodeString(uc.fp)
 		if hex.EncodeToString(z.FingerprintSHA256) != uc.fp {
@@ -153,6 +158,7 @@ func buildUniverse(c *ev.Ctx, shape string) *universe {
 	X := mint("X", k5, true, R)
 	D := mint("D", leafKey("D"), false, X)
 	B := mint("B", leafKey("B"), false, I)
+	Y := mint("Y", k3, true, R) // the key of N_I/K3 under another subject name: verifies L, Bad's sibling ... but is not named as their issuer
 	// Bad: a certificate naming N_I as issuer whose signature verifies under no key.
 	bad := append([]byte(nil), B.DER...)
 	bad[len(bad)-1] ^= 0x5a
@@ -172,6 +178,7 @@ func buildUniverse(c *ev.Ctx, shape string) *universe {
 	add("X", "N_X/K5 by R(K1)", "N_X/K5", X.DER)
 	add("D", "leaf by X(K5): issuer usually arrives later", "N_D", D.DER)
 	add("Bad", "leaf naming N_I as issuer, signature corrupted", "N_B", bad)
+	add("Y", "N_Y/K3 by R(K1): the key of N_I/K3 under another subject name", "N_Y/K3", Y.DER)
 
 	// verification matrix with the standard library only
 	u.ver = make([][]bool, len(u.nodes))
@@ -184,7 +191,7 @@ func buildUniverse(c *ev.Ctx, shape string) *universe {
 	}
 	// sanity of the fixture itself (a wrong fixture would make the search vacuous)
 	want := map[string]string{"R": "R", "Rp": "R", "R2": "R2", "Rx": "R2", "S": "S", "I": "R", "Ib": "R", "Ix": "S", "I2": "R",
-		"L": "I", "L2": "I2", "X": "R", "D": "X", "Bad": ""}
+		"L": "I", "L2": "I2", "X": "R", "D": "X", "Bad": "", "Y": "R"}
 	for name, signer := range want {
 		ci := u.byName[name]
 		n := 0
@@ -199,6 +206,9 @@ func buildUniverse(c *ev.Ctx, shape string) *universe {
 		if (signer == "") != (n == 0) {
 			c.Broken("fixture %s/%s: %d verifying nodes in the full universe", shape, name, n)
 		}
+	}
+	if yn, l := u.certs[u.byName["Y"]].node, u.byName["L"]; !u.ver[yn][l] || u.nodes[yn].subj == u.certs[l].iss {
+		c.Broken("fixture %s: N_Y/K3 must verify L under a name that is not L's issuer name", shape)
 	}
 	return u
 }
@@ -490,7 +500,13 @@ func (u *universe) check(g *verifier.Graph, d *verifier.VerifGraph, st status) (
 		} else if fe != nil {
 			fail("FindEdge: finds a certificate that was never inserted", "%s", uc.name)
 		}
-		if got, want := g.IsRoot(uc.z), st[ci] == 2; got != want {
+		// IsRoot is asked with the second object (never the one an edge was created from unless the history re-added
+		// the certificate) and with the first: a certificate is identified by its bytes, not by the Go object
+		got, want := g.IsRoot(uc.z2), st[ci] == 2
+		if g.IsRoot(uc.z) != got {
+			fail("IsRoot: two parsed objects of one certificate get different answers", "%s", uc.name)
+		}
+		if got != want {
 			switch {
 			case st[ci] == 0:
 				fail("IsRoot: true for a certificate that was never inserted", "%s", uc.name)
@@ -830,11 +846,15 @@ func (u *universe) run(c *ev.Ctx, bk *book, ops []op, hist []int, report bool) (
 		if step == len(hist)-1 {
 			before = append(status(nil), st...)
 		}
+		obj := u.certs[o.cert].z
+		if st[o.cert] != 0 {
+			obj = u.certs[o.cert].z2 // re-insertion: another object with the same bytes (as AppendFromPEM would produce)
+		}
 		panicked, msg, site := ev.Try(func() {
 			if o.root {
-				g.AddRoot(u.certs[o.cert].z)
+				g.AddRoot(obj)
 			} else {
-				g.AddCert(u.certs[o.cert].z)
+				g.AddCert(obj)
 			}
 		})
 		if panicked {
@@ -958,6 +978,8 @@ var handPicked = [][]string{
 	{"Rp", "R2", "S", "Ib", "Ix", "X", "D"},    // the next three complete the pair coverage (every two certificates meet)
 	{"R2", "Rx", "Ib", "I2", "L", "L2", "X"},   //
 	{"Rp", "Rx", "Ib", "Ix", "L2", "D", "Bad"}, // mostly dangling
+	{"R", "Y", "I", "L", "Bad", "Ib", "I2"},    // one key under two names: N_Y/K3 verifies L but is not named by it; N_I/K4 is named but does not verify
+	{"S", "Y", "Ix", "L", "L2", "X", "D"},      // the same with N_I/K3 arriving through the cross-sign only, Y dangling (no R)
 }
 
 func (u *universe) opsFor(names []string, c *ev.Ctx) []op {
@@ -1020,11 +1042,12 @@ func main() {
 
 		ed := uni("ed25519")
 		nU := len(ed.certs)
-		c.Rule("explicit-state BFS over histories (with repetition) of {AddCert(c),AddRoot(c)} on the real verifier.Graph: (A) c in a 7-element sub-universe of the 14-certificate universe, 14 ops, to depth 8 (closes: 3^7 states); (B) c in the whole universe, 28 ops, to depth 4 (quick) / 7 (thorough: contains the depth-7 search of all C(14,7) sub-universes); a state is the canonical VerifDump (nodes, edges with child/issuer/root, adjacency sets, indexes; insertion order of nodesBySubject sorted away) + the (certificate,root) set; distinct = distinct states")
+		c.Rule("explicit-state BFS over histories (with repetition) of {AddCert(c),AddRoot(c)} on the real verifier.Graph: (A) c in a 7-element sub-universe of the 15-certificate universe, 14 ops, to depth 8 (closes: 3^7 states); (B) c in the whole universe, 30 ops, to depth 4 (quick) / 7 (thorough: contains the depth-7 search of all C(15,7) sub-universes); the first operation of a history on a certificate passes one parsed *x509.Certificate, every later operation on it and every IsRoot query passes a second object parsed from the same DER; a state is the canonical VerifDump (nodes, edges with child/issuer/root, adjacency sets, indexes; insertion order of nodesBySubject sorted away) + the (certificate,root) set; distinct = distinct states")
 		c.Assume("reference = the graph the statement defines for the SET {(certificate, ever root)}: computed with crypto/x509 parsing, crypto/sha256 identities and crypto/x509 CheckSignature; no incremental model",
 			"node identity = SHA-256(SPKI||subject), certificate identity = SHA-256(DER) (both asserted equal to zcrypto's at start-up)",
 			"VerifDump (hook, tag verif) faithfully reports the unexported fields; the public accessors are checked against the same expectations independently",
-			"no two distinct (subject,SPKI) nodes verify the same certificate in this universe, so the permitted issuer ambiguity never arises (asserted: outcome class 'several candidate issuers' stays 0)")
+			"one key (K3) appears under two subject names (N_I, N_Y): a node that verifies a certificate without carrying its issuer name is not a candidate issuer",
+		"no two distinct (subject,SPKI) nodes with the issuer name verify the same certificate in this universe, so the permitted issuer ambiguity never arises (asserted: outcome class 'several candidate issuers' stays 0)")
 		var legend []string
 		for _, uc := range ed.certs {
 			legend = append(legend, uc.name+": "+uc.what)
